@@ -652,6 +652,14 @@ def run_scenario(ck, hbin, hchk, sc, ops, tag, seedtag):
     issues = []
     hdr = ["pathops", sc.env_line(), sc.states_line("path", sc.path), sc.states_line("goals", sc.goals)]
     impl, rc, err = run_h(ck, hbin, hdr, timeout=60)
+    if impl is None and rc == "timeout":
+        # a header-only script runs no routine under test (env, path + its check(), goals): 60 s without an answer is the loaded machine, not
+        # the property — never a wall-clock verdict: run it again with a long limit, and if it still does not answer report the MACHINERY
+        ck.count("infrastructure:header-script-timeout-retried")
+        impl, rc, err = run_h(ck, hbin, hdr, timeout=600)
+        if impl is None:
+            return [dict(kind="infra", routine="harness", clause="protocol", detail="the harness did not answer a header-only script within 600 s",
+                         script=hdr, observed=[])]
     if impl is None or len(impl) < 3 or not impl[0].startswith("ok") or not impl[1].startswith("ok chk="):
         return [dict(kind="oracle", routine="harness", clause="protocol", detail="header lines: %r" % (impl and impl[:3],), script=hdr, observed=impl or [])]
     if impl[1] != "ok chk=1":
@@ -1951,6 +1959,14 @@ def handle(ck, issues, hchk, state):
 
     for it in issues:
         kind = it["kind"]
+        if kind == "infra":
+            if capped((it["routine"], "infrastructure", None)):
+                continue
+            state["bad"] += 1
+            ck.log("infrastructure: %s" % it["detail"])
+            ck.report({"engine": "pathops", "kind": "infrastructure", "what": it["detail"]}, script=it["script"], observed=it["observed"], found_input=False,
+                      engine="pathops", obligation="check machinery: " + it["detail"])
+            continue
         if kind == "f9probe":
             ck.count("rope:inputs-where-pre-F9-code-read-past-end")
             if state["f9_probes"] < 3:
